@@ -12,6 +12,9 @@
 (* Further chain kinds: two splices in a row, fibres describing one / both connectors themselves, joined fibres,   *)
 (* user-complete line systems (also with insertion off), already split spans, C+L multiband sites, a 140 km span  *)
 (* under a design power sweep (+0.2 .. +3.0 dBm in 0.2 dB steps).                                                 *)
+(* A link given as two / three sections that are each longer than the maximum span length (directly connected).     *)
+(* A second use of the same network object: a designed 2-ROADM network gets further sections (400 km; 20 km; two    *)
+(* long ones) behind the last fibre of line A -> B in memory and is designed again.                                *)
 (* The reverse direction of a link carries the mirrored chain (a plain 80 km fibre opposite a Raman chain).      *)
 (* Tier selects how many chain combinations are used on the 3- and 4-ROADM shapes.                              *)
 EXTENDS DesignStructure, Json
@@ -94,7 +97,10 @@ Complete == {<<A("none"), F(20 * km), A("none")>>, <<A("partial"), F(50), X, F(5
 \* a user output VOA on an otherwise automatic amplifier, followed by two more amplifiers (the second fibre splits)
 UserVoa == {<<F(80 * km), A("voa"), F(151 * km)>>, <<F(20 * km), A("voa"), F(80 * km)>>}
 PerFreq == {<<FQ(151 * km)>>, <<FQ(20 * km), X, F(80 * km)>>}
-Chains == Plain \cup Spliced \cup WithAmp \cup Padded \cup PerFreq \cup DoubleSplice \cup OneConnector \cup UserParams \cup UserVoa \cup Joined \cup Complete \cup Resplit \cup ZeroAmp
+\* a long link described as sections that are each longer than the maximum span length, directly connected (80 km maximum:
+\* also the 95 km section)
+LongSections == {<<F(151 * km), F(400 * km)>>, <<F(95 * km), F(400 * km), F(151 * km)>>}
+Chains == LongSections \cup Plain \cup Spliced \cup WithAmp \cup Padded \cup PerFreq \cup DoubleSplice \cup OneConnector \cup UserParams \cup UserVoa \cup Joined \cup Complete \cup Resplit \cup ZeroAmp
 \* representatives used where the full product would be too large
 Reps   == {<<F(50)>>, <<F(80 * km)>>, <<F(400 * km)>>, <<F(20 * km), X, F(50)>>, <<F(151 * km), X, F(80 * km)>>,
            <<F(20 * km), A("none"), F(80 * km)>>, <<F(151 * km), A("full"), F(20 * km)>>, <<F(80 * km), A("partial"), F(50)>>}
@@ -165,19 +171,37 @@ GraphsFew == IF Tier # "thorough"
 \* real code, B2); b1quick (the exhaustive run of the quick tier): under two settings
 TwoSettings == {Setting(10, 0, 150, TRUE), Setting(0, 1, 80, FALSE)}
 PairSettings == IF Tier = "thorough" THEN AllSettings ELSE IF Tier = "quick" THEN HalfSettings ELSE TwoSettings
-MCCases == {[g |-> x, s |-> s] : x \in Graphs, s \in PairSettings}
+\* the same network object used twice: designed, extended in memory behind the last fibre of line A -> B, designed again
+Section(l, k) == Concrete(F(l), "Fiber AB section " \o ToString(k))
+Behind(c) == "Fiber AB" \o ToString(Len(c))
+ExtBase == {<<F(80 * km)>>, <<F(151 * km)>>, <<F(20 * km), X, F(50)>>, <<F(80 * km), A("full"), F(20 * km)>>}
+\* a long section (split by the second design) behind every base; behind the plain fibre also a short one (junction only) and
+\* two long ones in a row
+Extensions(c) == {<<[at |-> Behind(c), el |-> Section(400 * km, 2)]>>}
+                 \cup (IF c # <<F(80 * km)>> THEN {}
+                       ELSE {<<[at |-> Behind(c), el |-> Section(20 * km, 2)]>>,
+                             <<[at |-> Behind(c), el |-> Section(400 * km, 2)], [at |-> "Fiber AB section 2", el |-> Section(151 * km, 3)]>>})
+ExtCases == {[g |-> Pair(c), s |-> s, x |-> e] : <<c, e>> \in UNION {{<<c, e>> : e \in Extensions(c)} : c \in ExtBase},
+                                               s \in (IF Tier = "b1quick" THEN TwoSettings ELSE FewSettings)}
+SingleUse ==
+           {[g |-> x, s |-> s] : x \in Graphs, s \in PairSettings}
            \cup {[g |-> Pair(c), s |-> TwoBands(s)] : c \in Multi, s \in (IF Tier = "b1quick" THEN TwoSettings ELSE FewSettings)}
            \cup {[g |-> Pair(c), s |-> s] : c \in Hot, s \in (IF Tier = "b1quick" THEN {Setting(10, 0, 150, TRUE)} ELSE PowerSweep)}
            \cup {[g |-> Pair(c), s |-> NoInsert(s)] : c \in Complete, s \in (IF Tier = "b1quick" THEN FewSettings ELSE HalfSettings)}
            \cup {[g |-> x, s |-> s] : x \in GraphsHalf, s \in (IF Tier = "b1quick" THEN FewSettings ELSE HalfSettings)}
            \cup {[g |-> x, s |-> s] : x \in GraphsFew, s \in FewSettings}
+MCCases == {[g |-> c.g, s |-> c.s, x |-> <<>>] : c \in SingleUse} \cup ExtCases
 
 \* B2: one line per enumerated case (printed for the initial state of its behaviour); the harness renders it as
 \* topology JSON + equipment overrides and runs the real designed_network
 Compact(e) == [n |-> e.name, t |-> e.type, l |-> e.len, c |-> e.coef, v |-> e.variety, ci |-> e.conIn, co |-> e.conOut, ai |-> e.attIn, ct |-> e.coefTab, o |-> e.opt,
                lo |-> e.loss, u |-> e.sub, s |-> e.succ]
 \* CONSTRAINT of the enumeration-only run (C17): keep the initial states, do not rewrite
-InitialOnly == phase = "split" /\ seen = {} /\ g = inp
-Emit == phase # "split" \/ seen # {} \/ g # inp
+InitialOnly == phase = "split" /\ seen = {} /\ g = inp /\ round = 1
+\* single-use cases (also replayed by C17) and, separately, the cases with a second use of the network object
+Emit == phase # "split" \/ seen # {} \/ g # inp \/ round # 1 \/ ext # <<>>
         \/ PrintT("@@" \o ToJson([g |-> [i \in Nodes(inp) |-> Compact(inp[i])], s |-> cfg]))
+EmitExt == phase # "split" \/ seen # {} \/ g # inp \/ round # 1 \/ ext = <<>>
+        \/ PrintT("@@" \o ToJson([g |-> [i \in Nodes(inp) |-> Compact(inp[i])], s |-> cfg,
+                                   x |-> [k \in 1..Len(ext) |-> [at |-> ext[k].at, e |-> Compact(ext[k].el)]]]))
 ==============================================================================
